@@ -273,3 +273,26 @@ Proof.
   intros HT s fuel t v1 v2 r1 r2 _ _.
   exact (decode_determined_l par N h HT s fuel t v1 fuel t v2 r1 r2).
 Qed.
+
+(* (a)+(b) together, with the rule's value supplied by [rule_total] *)
+Lemma decode_follows_rule_l par fuel t v N h s :
+  tree_rep par fuel t v N -> muts_in_range N s -> order_ok par (s_mutations s) ->
+  (forall u, depth_le par h u) ->
+  forall g al hm, decode fuel t v s = Ok (g, al, hm) ->
+  forall k u, get (v_samples v) k = Ok u ->
+  exists r, nearest par (s_mutations s) u r /\
+    let missing := v_impute v = false /\ isolated par u /\ has_mut_on (s_mutations s) u = false in
+    (missing /\ get g k = Ok MISSING) \/
+    (~ missing /\ get g k = Ok (allele_index al (state_of (s_ancestral s) r)) /\
+     get al (allele_index al (state_of (s_ancestral s) r)) = Ok (state_of (s_ancestral s) r)).
+Proof.
+  intros TR MR OO HT g al hm D k u Hk.
+  destruct (rule_total_l par (s_mutations s) h u (HT u)) as [r NR]. exists r. split; [assumption|].
+  cbv zeta.
+  pose proof (missing_exact_l par fuel t v N s TR MR OO g al hm D k u r Hk NR) as ME.
+  destruct (paint_nearest_l par fuel t v N s TR MR OO g al hm D k u r Hk NR) as (gk & G & [M | [E GA]]).
+  - subst gk. left. split; [apply ME; assumption | assumption].
+  - right. split; [|subst gk; split; assumption].
+    intros C. apply ME in C. rewrite G in C. inversion C as [C'].
+    pose proof (get_range _ _ _ GA). unfold MISSING in C'. lia.
+Qed.
